@@ -50,3 +50,29 @@ Definition denit_check (c : list float * float * float * float * float * (list f
   let '(c1, nq, fth, fte, cum, (oc1, ocum)) := c in
   let o := denitr {| di_c1 := c1; di_nquadrat := nq; di_ftheta := fth; di_ftemp := fte; di_cumdenit := cum |} in
   ((if floats_same (do_c1 o) oc1 then 0 else 1) + (if float_same (do_cumdenit o) ocum then 0 else 2))%nat.
+
+(* Denitmo: (c1[9], nq[3], fth[3], fte[3], cum) -> (c1'[9], cum') *)
+Definition denitmo_check (c : list float * list float * list float * list float * float * (list float * float)) : nat :=
+  let '(c1, nq, fth, fte, cum, (oc1, ocum)) := c in
+  let o := denitmo {| dm_c1 := c1; dm_nq := nq; dm_fth := fth; dm_fte := fte; dm_cum := cum |} in
+  ((if floats_same (dmo_c1 o) oc1 then 0 else 1) + (if float_same (dmo_cum o) ocum then 0 else 2))%nat.
+
+(* tillage inside Nitro (sub-step 1, mineralisation switched off by IZM = 0): pools are compared directly,
+   mineral N after the transport step that follows in the same call *)
+Record till_obs := { tl_eint : float; tl_tilart : Z; tl_nfos : list float; tl_naos : list float; tl_minfos : list float;
+                     tl_minaos : list float; tl_o_nfos : list float; tl_o_naos : list float; tl_o_minfos : list float;
+                     tl_o_minaos : list float; tl_o_c1 : list float }.
+Definition with_c1 (x : nmove_in (T:=float)) (c1 : list float) : nmove_in (T:=float) :=
+  {| ni_subd1 := ni_subd1 x; ni_wdt := ni_wdt x; ni_after_sow := ni_after_sow x; ni_growing := ni_growing x;
+     ni_fluss0 := ni_fluss0 x; ni_dv := ni_dv x; ni_draidep := ni_draidep x; ni_qdrain := ni_qdrain x; ni_outn := ni_outn x;
+     ni_stab := ni_stab x; ni_schnorr := ni_schnorr x; ni_ad := ni_ad x; ni_expo := ni_expo x; ni_wg0 := ni_wg0 x;
+     ni_w := ni_w x; ni_pe := ni_pe x; ni_c1 := c1; ni_dn := ni_dn x; ni_q1 := ni_q1 x; ni_pesum := ni_pesum x;
+     ni_aufnasum := ni_aufnasum x; ni_outsum := ni_outsum x; ni_nleag := ni_nleag x; ni_drainloss := ni_drainloss x |}.
+Definition till_check (c : nmove_in (T:=float) * till_obs) : nat :=
+  let '(x, t) := c in
+  let '(nfos, naos, minfos, minaos, c1m) :=
+    tillage_mix (tl_eint t) (tl_tilart t) (tl_nfos t) (tl_naos t) (tl_minfos t) (tl_minaos t) (ni_c1 x) in
+  let m := nmove (with_c1 x c1m) in
+  ((if floats_same nfos (tl_o_nfos t) && floats_same naos (tl_o_naos t) then 0 else 1)
+   + (if floats_same minfos (tl_o_minfos t) && floats_same minaos (tl_o_minaos t) then 0 else 2)
+   + (if floats_same (no_c1 m) (tl_o_c1 t) then 0 else 4))%nat.
